@@ -27,6 +27,11 @@
 (*                                         rejected stored-hash, class partial       *)
 (*  P4 A re-pruned, the new pruned branch stores depth 0 instead of 1                *)
 (*                                         rejected pruned-cell, class partial       *)
+(*  H1 a := root.Ref(0); l := a.Ref(0); r := a.Ref(1); l.Prune(): A1 pruned  accepted *)
+(*  H2 same calls, the proof has A2 (the position of r) pruned                        *)
+(*                                  rejected asked-but-not-pruned, class held         *)
+(*  K1 as W1's first proof, the kept root cell has lost its first data bit            *)
+(*                                  rejected kept-cell                                *)
 (* DT3 = {KA, KB, KC}; the source is the tree under the proof that keeps KA and KB.  *)
 (*  Q1 key A (prunes above the old pruned branch), key B (re-prunes it), key C       *)
 (*     (path pruned: anything but a panic), absent key refused         accepted     *)
@@ -42,9 +47,11 @@ FlipBit(PT) == [PT EXCEPT ![1].b = [@ EXCEPT ![60] = 1 - @]]          \* a bit o
 TableJson(T) == [i \in 1..Len(T) |-> [b |-> BitsToStr(T[i].b), x |-> T[i].x, r |-> [j \in 1..Len(T[i].r) |-> T[i].r[j] - 1]]]
 WReset == [k |-> "Reset", kind |-> "walk", src |-> "canary", mode |-> "none", n |-> 0, cells |-> TableJson(WT), roots |-> <<0>>]
 Cur(c) == [k |-> "Cursor", c |-> c]
-Ref0(c, i) == [k |-> "Ref", c |-> c, i |-> i]
-Pr(c) == [k |-> "Prune", c |-> c]
-Cr(c, PT) == [k |-> "Create", c |-> c, err |-> "", panic |-> "", proof |-> Bag(PT)]
+RefH(c, h, nh, i) == [k |-> "Ref", c |-> c, h |-> h, nh |-> nh, i |-> i]
+PrH(c, h) == [k |-> "Prune", c |-> c, h |-> h]
+Ref0(c, i) == RefH(c, 0, 1, i)                \* handle 1 := handle 0 .Ref(i)
+Pr(c) == PrH(c, 1)
+Cr(c, PT) == [k |-> "Create", c |-> c, h |-> 0, err |-> "", panic |-> "", proof |-> Bag(PT)]
 PL == Proof(WT, 1, {<<1>>})   PR == Proof(WT, 1, {<<2>>})   P0 == Proof(WT, 1, {})
 WS1 == << WReset, Cur(1), Ref0(1, 0), Pr(1), Cr(1, PL), Cur(2), Cr(2, P0) >>
 WS2 == << WReset, Cur(1), Ref0(1, 0), Pr(1), Cr(1, PL), Cur(2), Cr(2, PL) >>
@@ -78,10 +85,17 @@ QB == Proof(S2, 1, {<<2>>})      \* rows: 1 Merkle proof, 2 root, 3 A (kept prun
 QA == Proof(S2, 1, {<<1>>})      \* A pruned again: the same pruned branch
 QR == Proof(S2, 1, {<<>>})       \* the root pruned: above A
 Bytes(PT, i) == DataBytes(PT[i].b)
-PSS1 == << PReset, Cur(1), Ref0(1, 1), Pr(1), Cr(1, QB), Cur(2), Ref0(2, 0), Pr(2), Cr(2, QA), Cur(3), Pr(3), Cr(3, QR) >>
+PSS1 == << PReset, Cur(1), Ref0(1, 1), Pr(1), Cr(1, QB), Cur(2), Ref0(2, 0), Pr(2), Cr(2, QA), Cur(3), PrH(3, 0), Cr(3, QR) >>
 PSS2 == << PReset, Cur(1), Ref0(1, 1), Pr(1), Cr(1, [QB EXCEPT ![3].m = 0]) >>
 PSS3 == << PReset, Cur(1), Ref0(1, 1), Pr(1), Cr(1, [QB EXCEPT ![1].b = BytesToBits(<<3>> \o IS2[1].h[4] \o U16(IS2[1].d[4]))]) >>
 PSS4 == << PReset, Cur(1), Ref0(1, 0), Pr(1), Cr(1, [QA EXCEPT ![3].b = BytesToBits(SubSeq(Bytes(QA, 3), 1, 34) \o <<0, 0>>)]) >>
+\* ---- several cursor values alive at once: a := root.Ref(0); l := a.Ref(0); r := a.Ref(1); l.Prune()
+HoldScript == << Cur(1), RefH(1, 0, 1, 0), RefH(1, 1, 2, 0), RefH(1, 1, 3, 1), PrH(1, 2) >>
+HReset == [k |-> "Reset", kind |-> "walk", src |-> "canary", mode |-> "none", n |-> 0, cells |-> TableJson(T2), roots |-> <<0>>]
+HS1 == << HReset >> \o HoldScript \o << Cr(1, Proof(T2, 1, {<<1, 1>>})) >>
+HS2 == << HReset >> \o HoldScript \o << Cr(1, Proof(T2, 1, {<<1, 2>>})) >>     \* the position of r was pruned instead
+\* a kept cell rebuilt with only the tail of its data (as if a read cursor had been honoured)
+KS1 == << WReset, Cur(1), Ref0(1, 0), Pr(1), Cr(1, [PL EXCEPT ![2].b = SubSeq(@, 2, Len(@))]) >>
 KC == <<1,1,0,0,0,0,0,0>>   VC == [i \in 1..32 |-> IF i % 3 = 0 THEN 1 ELSE 0]
 DT3 == EncEdge(<< [k |-> KA, v |-> [b |-> VA, r |-> <<>>]], [k |-> KB, v |-> [b |-> VB, r |-> <<>>]], [k |-> KC, v |-> [b |-> VC, r |-> <<>>]] >>, 0, 8, <<"short">>, <<>>)
 KeepAB == KeepKeysPruneSet(DT3, 1, 8, {KA, KB})
@@ -92,9 +106,9 @@ QReset == [k |-> "Reset", kind |-> "dict", src |-> "canary", mode |-> "proof", n
 QKA == Proof(S3, 1, {<<2>>})    QKB == Proof(S3, 1, {<<1>>, <<2, 2>>})
 QS1 == << QReset, Key(KA, VA, QKA), Key(KB, VB, QKB), Refused(KC), Refused(KX) >>
 QS2 == << QReset, Key(KA, VA, [QKA EXCEPT ![1].b = BytesToBits(<<3>> \o IS3[1].h[4] \o U16(IS3[1].d[4]))]) >>
-All == WS1 \o WS2 \o WS3 \o WS4 \o WS5 \o WS6 \o DS1 \o DS2 \o DS3 \o DS4 \o DS5 \o DS6 \o PSS1 \o PSS2 \o PSS3 \o PSS4 \o QS1 \o QS2
+All == WS1 \o WS2 \o WS3 \o WS4 \o WS5 \o WS6 \o DS1 \o DS2 \o DS3 \o DS4 \o DS5 \o DS6 \o PSS1 \o PSS2 \o PSS3 \o PSS4 \o QS1 \o QS2 \o HS1 \o HS2 \o KS1
 Init == out = "todo"
-Next == out = "todo" /\ out' = "done" /\ PrintT(<<"VEC", ToJson([events |-> All, lens |-> <<Len(WS1), Len(WS2), Len(WS3), Len(WS4), Len(WS5), Len(WS6), Len(DS1), Len(DS2), Len(DS3), Len(DS4), Len(DS5), Len(DS6), Len(PSS1), Len(PSS2), Len(PSS3), Len(PSS4), Len(QS1), Len(QS2)>>,
+Next == out = "todo" /\ out' = "done" /\ PrintT(<<"VEC", ToJson([events |-> All, lens |-> <<Len(WS1), Len(WS2), Len(WS3), Len(WS4), Len(WS5), Len(WS6), Len(DS1), Len(DS2), Len(DS3), Len(DS4), Len(DS5), Len(DS6), Len(PSS1), Len(PSS2), Len(PSS3), Len(PSS4), Len(QS1), Len(QS2), Len(HS1), Len(HS2), Len(KS1)>>,
                                                                 selfcheck |-> (WellFormed(PL) /\ WellFormed(P0) /\ WellFormed(PAB) /\ DecEdge(DT, 1, 8, <<>>).ok
                                                                                /\ SourceOK(S2) /\ Partial(S2) /\ S2[1].m = 1 /\ IS2[1].h[4] # IS2[1].h[1] /\ IS2[2].d[1] = 1
                                                                                /\ WellFormed(QB) /\ WellFormed(QA) /\ WellFormed(QR) /\ QA = Proof(S2, 1, {})
